@@ -84,14 +84,21 @@ func (t *loopTr) expr(e ast.Expr) (string, lkind) {
 			}
 			return t.shift(e, x.Op, a, ak, x.Y), ak
 		}
+		varDiv := false
 		if x.Op == token.QUO || x.Op == token.REM {
-			// a zero divisor panics: only non-zero constants are accepted
-			if c, isConst := t.constInt(x.Y); !isConst || c.Sign() == 0 {
-				t.fail(e, "%s by a non-constant or zero divisor is not supported (a zero divisor panics; only x %s c with a non-zero constant c)", x.Op, x.Op)
-			}
+			// a zero divisor panics: non-zero constants, and (stage 14) a non-constant divisor of a 64-bit unsigned type
+			// in a function that is built as a Go.Flow (the check `divisor != 0` precedes the statement)
+			varDiv = t.divisorCheck(e, x.Op, x.Y)
 		}
 		n := len(t.checks)
 		b, bk := t.expr(x.Y)
+		if varDiv {
+			if ak != kUint || bk != kUint {
+				t.fail(e, "%s by a non-constant divisor is supported for uint / uint64 operands only", x.Op)
+			}
+			// the operands are evaluated (and can panic) before the division does
+			t.addCheck("(" + b + " != 0#64)")
+		}
 		if x.Op == token.LAND || x.Op == token.LOR {
 			// the right operand is only evaluated (and can only panic) when the left one does not decide
 			for i := n; i < len(t.checks); i++ {
@@ -239,6 +246,38 @@ func (t *loopTr) shift(at ast.Node, op token.Token, a string, ak lkind, y ast.Ex
 	return "(" + a + " >>> " + n + ")"
 }
 
+// divisorCheck: the divisor y of `x / y`, `x % y`.  A non-zero constant: nothing to check
+// (false).  Not a constant (stage 14): accepted when its type is uint or uint64 and the function is built as a
+// Go.Flow (needsFlow makes it one); the caller then adds the check `y != 0` (true): division by zero is a run-time
+// panic, BitVec.udiv / BitVec.umod give the value otherwise.  Signed non-constant division (MinInt / -1 wraps, the
+// remainder has the sign of the dividend) and every other shape is rejected.
+func (t *loopTr) divisorCheck(at ast.Node, op token.Token, y ast.Expr) bool {
+	if c, isConst := t.constInt(y); isConst {
+		if c.Sign() == 0 {
+			t.fail(at, "%s by the constant zero is not supported (it does not compile)", op)
+		}
+		return false
+	}
+	if !t.unsignedDivisor(y) {
+		t.fail(at, "%s by a non-constant or zero divisor is not supported (a zero divisor panics; only x %s c with a non-zero constant c, "+
+			"and x %s y with y of type uint or uint64)", op, op, op)
+	}
+	if !t.flowFn {
+		t.fail(at, "internal error: %s by a non-constant divisor outside a function that can panic", op)
+	}
+	return true
+}
+
+// unsignedDivisor: y is a non-constant expression of type uint or uint64 (uintptr and the narrower types are not modelled).
+func (t *loopTr) unsignedDivisor(y ast.Expr) bool {
+	tv, ok := t.info.Types[y]
+	if !ok || tv.Value != nil || tv.Type == nil {
+		return false
+	}
+	b, ok := tv.Type.Underlying().(*types.Basic)
+	return ok && (b.Kind() == types.Uint || b.Kind() == types.Uint64)
+}
+
 func (t *loopTr) binop(at ast.Node, op token.Token, a string, ak lkind, b string, bk lkind) (string, lkind) {
 	if ak != bk {
 		t.fail(at, "operands of different types")
@@ -266,7 +305,7 @@ func (t *loopTr) binop(at ast.Node, op token.Token, a string, ak lkind, b string
 			lt, le = "BitVec.slt", "BitVec.sle"
 		}
 		switch op {
-		case token.QUO: // the caller has checked that b is a non-zero constant
+		case token.QUO: // the caller has checked the divisor (divisorCheck): a non-zero constant, or guarded by the check b != 0
 			if ak.isSigned() {
 				return "(BitVec.sdiv " + a + " " + b + ")", ak
 			}
